@@ -642,7 +642,9 @@ pub(crate) async fn exec_model_trace_world(t: Trace, prop: &'static str, w: Worl
                     }
                     let h = head_of(d.exp.as_deref().or(d.obs.as_deref()).unwrap_or(""));
                     let allowed = match h.as_str() {
-                        "324" | "329" | "367" | "348" | "346" => P06 | P08 | P09 | P15 | P16,
+                        "324" | "329" => P06 | P08 | P09 | P15 | P16,
+                        // mask lists: what is stored after +b/+e/+I and their removal (also by short forms) is C14's and C07's too
+                        "367" | "348" | "346" | "368" | "349" | "347" => P06 | P08 | P09 | P15 | P16 | P14 | P07 | P10,
                         "353" | "352" | "319" | "366" | "315" => P04 | P06 | P07 | P09 | P15 | P16,
                         "322" | "331" | "332" | "333" => P04 | P06 | P09 | P16,
                         "221" | "313" | "378" | "379" | "381" => P11 | P15 | P19,
